@@ -133,10 +133,13 @@ package server
 //@ props C01 C12
 //@ requires srv != nil && msg != nil && sub != nil && q != nil
 //@ requires msg != sub
+// the identifiers handed in do not share memory with those the message already carries
+//@ requires msg.SubscriptionIdentifier == nil || len(ids) == 0 || ref(ids) != ref(msg.SubscriptionIdentifier)
 //@ requires srv.config.MQTT.MessageExpiry >= 0
 //@ witness e = msg.MessageExpiry
 //@ witness cap = srv.config.MQTT.MessageExpiry
 //@ modifies heap, ghost(q.$adds)
+//@ preserves all(server.*), all(gmqtt.Subscription.*), all(deliverHandler.*), allmaps(string, elem(fieldtype(deliverHandler.sl))), allelems(elem(elem(fieldtype(deliverHandler.sl)))), allmaps(string, elem(fieldtype(deliverHandler.mq))), all(elem(elem(fieldtype(deliverHandler.mq))).*), allmaps(string, queue.Store)
 //@ ensures [C01] old(skipQos0(srv, clientID, msg.QoS)) ==> q.$adds == old(q.$adds)
 //@ ensures [C01] !old(skipQos0(srv, clientID, msg.QoS)) ==> q.$adds == old(q.$adds) + 1
 //@ call Store.Add#1 assert [C01] elem.MessageWithID.(type *queue.Publish) && elem.MessageWithID.(*queue.Publish).Message == msg
@@ -144,6 +147,15 @@ package server
 //@ call Store.Add#1 assert [C01] msg.Dup == false
 //@ call Store.Add#1 assert [C01] msg.Retained == (old(msg.Retained) && old(sub.RetainAsPublished))
 //@ call Store.Add#1 assert [C01] msg.PacketID == old(msg.PacketID) && msg.Topic == old(msg.Topic) && msg.Payload == old(msg.Payload)
+// subscription identifiers: one identifier is appended per non-zero identifier handed in (all of them / none of them in
+// the two cases stated), after those the message already carries, which stay as they are
+//@ spec func allNZ(ids []uint32) bool = forall j int :: 0 <= j && j < len(ids) ==> ids[j] != 0
+//@ loop 1 invariant msg != nil && (msg.SubscriptionIdentifier == nil || len(ids) == 0 || ref(ids) != ref(msg.SubscriptionIdentifier)) && (forall j int :: 0 <= j && j < len(ids) ==> ids[j] == old(ids[j])) && len(msg.SubscriptionIdentifier) <= old(len(msg.SubscriptionIdentifier)) + $k + 1 && len(msg.SubscriptionIdentifier) >= old(len(msg.SubscriptionIdentifier)) && (forall j int :: 0 <= j && j < old(len(msg.SubscriptionIdentifier)) ==> msg.SubscriptionIdentifier[j] == old(msg.SubscriptionIdentifier[j]))
+//@ loop 1 invariant old(forall j int :: 0 <= j && j < len(ids) ==> ids[j] == 0) ==> len(msg.SubscriptionIdentifier) == old(len(msg.SubscriptionIdentifier))
+//@ loop 1 invariant old(allNZ(ids)) ==> len(msg.SubscriptionIdentifier) == old(len(msg.SubscriptionIdentifier)) + $k + 1
+//@ call Store.Add#1 assert [C01] old(allNZ(ids)) ==> len(msg.SubscriptionIdentifier) == old(len(msg.SubscriptionIdentifier)) + len(ids)
+//@ call Store.Add#1 assert [C01] old(forall j int :: 0 <= j && j < len(ids) ==> ids[j] == 0) ==> len(msg.SubscriptionIdentifier) == old(len(msg.SubscriptionIdentifier))
+//@ call Store.Add#1 assert [C01] forall j int :: 0 <= j && j < old(len(msg.SubscriptionIdentifier)) ==> msg.SubscriptionIdentifier[j] == old(msg.SubscriptionIdentifier[j])
 //@ call Store.Add#1 assert [C12] elem.At == now
 //@ call Store.Add#1 assert [C12] lifetimeNs(old(msg.MessageExpiry), old(srv.config.MQTT.MessageExpiry)) == 0 ==> elem.Expiry == 0
 //@ call Store.Add#1 assert [C12] lifetimeNs(old(msg.MessageExpiry), old(srv.config.MQTT.MessageExpiry)) != 0 ==> elem.Expiry == now + lifetimeNs(old(msg.MessageExpiry), old(srv.config.MQTT.MessageExpiry))
